@@ -71,7 +71,7 @@ def full_info_grammar(g):
 class ParseStream:
     """Generates (grammar, strict, input) pairs and runs implementation + oracle."""
 
-    def __init__(self, chk, exe, n_grammars, exhaustive_len, extra_inputs, costs=(0, 5), p_anode=0.6, sentences_only=False, max_trees=None):
+    def __init__(self, chk, exe, n_grammars, exhaustive_len, extra_inputs, costs=(0, 5), p_anode=0.6, sentences_only=False, max_trees=None, n_families=0):
         self.chk, self.exe = chk, exe
         self.pairs = []
         rng = chk.rng
@@ -88,11 +88,23 @@ class ParseStream:
                     if max_trees is None or gen.count_derivations(g, w) <= max_trees:
                         self.pairs.append((g, bool(c['strict']), list(w)))
             self.stats['corpus_pairs'] = len(self.pairs)
+        for gi in range(n_families):
+            g = gen.family_grammar(rng, costs=costs)
+            if not g.well_formed(False):
+                continue
+            self.stats['family_grammars'] = self.stats.get('family_grammars', 0) + 1
+            for w in gen.family_inputs(rng, g):
+                if max_trees is None or gen.count_derivations(g, w) <= max_trees:
+                    self.pairs.append((g, False, w))
         for gi in range(n_grammars):
             strict = rng.random() < 0.5
+            profile = rng.choice(['default', 'default', 'nullable', 'units', 'nullable+units'])
+            self.stats['profile_' + profile] = self.stats.get('profile_' + profile, 0) + 1
             g = gen.rand_wf_grammar(rng, strict, max_nt=rng.choice([1, 2, 3, 4, 5]), max_t=rng.choice([1, 2, 3, 4]),
                                     max_rhs=rng.choice([2, 3, 4]), costs=costs, p_anode=p_anode,
-                                    sparse_codes=rng.random() < 0.2)
+                                    sparse_codes=rng.random() < 0.2,
+                                    p_empty=0.3 if 'nullable' in profile else 0.0,
+                                    p_unit=0.3 if 'units' in profile else 0.0)
             if g is None:
                 continue
             self.stats['grammars'] += 1
@@ -236,7 +248,8 @@ def run(pid, tier, seed, replay=None):
     elif pid in ('C02', 'C03', 'C04', 'C05'):
         amb_bias = pid in ('C03', 'C04', 'C05')
         ps = ParseStream(chk, exe, (120 if quick else 1200), (4 if quick else 5), 5, sentences_only=False,
-                         costs=(0, 3) if pid == 'C04' else (0, 5), p_anode=0.75 if amb_bias else 0.6, max_trees=150)
+                         costs=(0, 3) if pid == 'C04' else (0, 5), p_anode=0.75 if amb_bias else 0.6, max_trees=150,
+                         n_families=(60 if quick else 600) if amb_bias else (20 if quick else 200))
         ps.oracle_basics(want_trans=True, want_full=(pid == 'C05'))
         # keep sentences only
         if pid == 'C02':
@@ -407,7 +420,8 @@ def check_trees(chk, pid, ps, res):
             else:
                 miss = minimal - set(owntrees)
                 if miss:
-                    V('missing_min', 'a minimal translation is missing: %s' % sorted(miss)[0]); continue
+                    site = 'missing_min@reused-translation-of-copied-anode' if (verif[2] > 0 and verif[4] > 0) else 'missing_min'
+                    V(site, 'a minimal translation is missing: %s [events: reuse=%d copies=%d]' % (sorted(miss)[0], verif[2], verif[4])); continue
             rootfield = nodes[p['root']].get('cost') if nodes[p['root']]['k'] == 'anode' else None
             if rootfield is not None and rootfield != m and not d['hasalt']:
                 V('rootcost', 'root cost field %d, minimum %d' % (rootfield, m)); continue
